@@ -46,6 +46,12 @@ CHECKS["C07"] = dict(
     technique="Coq proof (pipeline machine invariant) + extraction-based correspondence and trace acceptance",
     design="4/C07")
 
+CHECKS["C04"] = dict(
+    text="Coq theorems about build_execution_plan (the mechanism that decides initial vs deferred placement): the plan is a partition of the grouped field set (permutation), a key stays initial iff its filtered defer-usage set equals the parent set, filtered sets contain no usage with an ancestor in the set, a key with a non-deferred field node is never deferred, one-level reassembly for any key-wise execution function. Real incremental runs (nested/labelled/if:false/overlapping @defer, @stream, defers inside streams) under explored completion orders and early execution on/off are merged by the extracted merge oracle and must equal the implementation's execution with the directives removed (error-free) / be contained in the non-propagating reference with nothing lost (error runs); build_execution_plan is also driven directly against the model",
+    note="theorems are _partial: the incremental executor (delivery groups, streams) is not modelled, so reassembly itself is decided by exploration with the merge oracle; schedules are sampled",
+    technique="Coq proof (execution plan partition) + merge-oracle reassembly check under a controlled event loop",
+    design="4/C04")
+
 NOT_YET = {}
 
 
